@@ -91,6 +91,9 @@ type x10Pipe struct {
 	releaseAfterSend       bool
 	popsBothHeads          bool
 	sendsAfterEveryReceive bool
+	drainsOnFini           bool
+	deferCloseDone         bool
+	waitIsRecvDone         bool
 }
 
 func extractPipeCfg(x *extractor) {
@@ -130,6 +133,23 @@ func extractPipeCfg(x *extractor) {
 	u.pf("def closeIsWaitThenFini : Bool := %s\n", leanBool(p.closeIsWaitThenFini))
 	u.pf("def dispatcherShutdownIsCloseCloseClose : Bool := %s\n", leanBool(p.shutdownShape))
 	u.pf("def controllerSelectHasFini : Bool := %s\n", leanBool(p.controllerSelectFini))
+	u.pf("def controllerDrainsOnFini : Bool := %s\n", leanBool(p.drainsOnFini))
+	waitOK := false
+	if fd := pi.funcDecl("packetManager.wait"); fd != nil {
+		waitOK, _ = x10BodyIs(pi, "packetManager.wait", "<-s.done")
+		if !waitOK {
+			u.fail("packetManager.wait: body is not `<-s.done` (%s)", pi.pos(fd))
+		}
+	}
+	w1 := x10ServeWaits(pi, u, "Server.Serve", "svr")
+	w2 := x10ServeWaits(pi, u, "RequestServer.Serve", "rs")
+	if (w1 || w2) && !(waitOK && p.deferCloseDone) {
+		u.fail("Serve calls pktMgr.wait() but wait() is not `<-s.done` with `defer close(s.done)` first in controller")
+	}
+	if p.deferCloseDone && !waitOK {
+		u.fail("controller defers close(s.done) but packetManager.wait is missing or not `<-s.done`")
+	}
+	u.pf("def serveWaitsForController : Bool := %s\n", leanBool(w1 && w2 && waitOK && p.deferCloseDone))
 	u.pf("def newOrderIDPreIncrements : Bool := %s\n", leanBool(p.newOrderIDPreIncr))
 	u.pf("def getNextOrderIDIsCountPlusOne : Bool := %s\n", leanBool(p.getNextIsPlusOne))
 	u.pf("def maybeSendPopsBothHeads : Bool := %s\n", leanBool(p.popsBothHeads))
@@ -380,12 +400,16 @@ func x10Controller(pi *pkgInfo, u *unit, p *x10Pipe) {
 	}
 	u.pf("-- source: %s (controller)\n", pi.pos(fd))
 	top := x10Stmts(pi, fd.Body.List)
+	if len(top) == 2 && x10Text(top[0]) == "defer close(s.done)" {
+		p.deferCloseDone = true
+		top = top[1:]
+	}
 	var loop *ast.ForStmt
 	if len(top) == 1 {
 		loop, _ = top[0].(*ast.ForStmt)
 	}
 	if loop == nil || loop.Init != nil || loop.Cond != nil || loop.Post != nil {
-		u.fail("controller: body is not a single `for { … }` (%s)", pi.pos(fd))
+		u.fail("controller: body is not [defer close(s.done);] `for { … }` (%s)", pi.pos(fd))
 		return
 	}
 	body := x10Stmts(pi, loop.Body.List)
@@ -428,10 +452,14 @@ func x10Controller(pi *pkgInfo, u *unit, p *x10Pipe) {
 				u.fail("controller: responses branch is not append [+ Sort]: %q (%s)", texts, pi.pos(cc))
 			}
 		case "<-s.fini":
-			if x10Eq(texts, "return") {
+			switch {
+			case x10Eq(texts, "return"):
 				p.controllerSelectFini = true
-			} else {
-				u.fail("controller: fini branch is not `return`: %q (%s)", texts, pi.pos(cc))
+			case x10IsDrain(pi, x10Stmts(pi, cc.Body)):
+				p.controllerSelectFini = true
+				p.drainsOnFini = true
+			default:
+				u.fail("controller: fini branch is neither `return` nor the drain loop followed by s.maybeSendPackets(); return: %q (%s)", texts, pi.pos(cc))
 			}
 		default:
 			u.fail("controller: unrecognised select branch %q at %s", comm, pi.pos(cc))
@@ -440,6 +468,81 @@ func x10Controller(pi *pkgInfo, u *unit, p *x10Pipe) {
 	if !sawReq || !sawResp {
 		u.fail("controller: select lacks the requests or the responses branch (%s)", pi.pos(sel))
 	}
+}
+
+// x10IsDrain recognises the fini branch that empties both channels before the controller stops:
+//
+//	for { select { case pkt := <-s.requests: append [Sort]; continue
+//	               case pkt := <-s.responses: append [Sort]; continue
+//	               default: }; break }
+//	s.maybeSendPackets(); return
+//
+// (the Sort calls must be there: the drained packets go through the same ordered queues).
+func x10IsDrain(pi *pkgInfo, body []ast.Stmt) bool {
+	if len(body) != 3 || x10Text(body[1]) != "s.maybeSendPackets()" || x10Text(body[2]) != "return" {
+		return false
+	}
+	loop, ok := body[0].(*ast.ForStmt)
+	if !ok || loop.Init != nil || loop.Cond != nil || loop.Post != nil {
+		return false
+	}
+	lb := x10Stmts(pi, loop.Body.List)
+	if len(lb) != 2 || x10Text(lb[1]) != "break" {
+		return false
+	}
+	sel, ok := lb[0].(*ast.SelectStmt)
+	if !ok || len(sel.Body.List) != 3 {
+		return false
+	}
+	req, resp, dflt := false, false, false
+	for _, c := range sel.Body.List {
+		cc := c.(*ast.CommClause)
+		texts := x10Texts(pi, cc.Body)
+		switch {
+		case cc.Comm == nil:
+			dflt = len(texts) == 0
+		case x10Text(cc.Comm) == "pkt := <-s.requests":
+			req = x10Eq(texts, "s.incoming = append(s.incoming, pkt)", "s.incoming.Sort()", "continue")
+		case x10Text(cc.Comm) == "pkt := <-s.responses":
+			resp = x10Eq(texts, "s.outgoing = append(s.outgoing, pkt)", "s.outgoing.Sort()", "continue")
+		}
+	}
+	return req && resp && dflt
+}
+
+// x10ServeWaits: does Serve call `R.pktMgr.wait()` right after `wg.Wait()` (and nowhere else)?
+func x10ServeWaits(pi *pkgInfo, u *unit, fn, recv string) bool {
+	fd := pi.funcDecl(fn)
+	if fd == nil {
+		u.fail("%s not found", fn)
+		return false
+	}
+	call := recv + ".pktMgr.wait()"
+	n := 0
+	ast.Inspect(fd.Body, func(m ast.Node) bool {
+		if c, ok := m.(*ast.CallExpr); ok && x10Text(c) == call {
+			n++
+		}
+		return true
+	})
+	top := x10Stmts(pi, fd.Body.List)
+	after := false
+	sawWg := false
+	for i, s := range top {
+		if x10Text(s) == "wg.Wait()" {
+			sawWg = true
+			after = i+1 < len(top) && x10Text(top[i+1]) == call
+		}
+	}
+	if !sawWg {
+		u.fail("%s: top-level `wg.Wait()` not found (%s)", fn, pi.pos(fd))
+		return false
+	}
+	if n > 0 && !(n == 1 && after) {
+		u.fail("%s: %s is called, but not exactly once directly after wg.Wait() (%s)", fn, call, pi.pos(fd))
+		return false
+	}
+	return after
 }
 
 // ---- maybeSendPackets ----
@@ -624,9 +727,12 @@ func x10ServeLoop(pi *pkgInfo, u *unit, fn, recv, tag string) {
 	if idx != 2 || !strings.HasPrefix(x10Text(body[0]), "pktType, pktBytes, err = "+recv+".serverConn.recvPacket(") {
 		u.fail("%s: loop does not start with recvPacket + error check (%s)", fn, pi.pos(loop))
 	}
+	const isUnk = "errors.Is(err, errUnknownExtendedPacket)"
 	ifs, ok := body[idx+1].(*ast.IfStmt)
-	if !ok || ifs.Init != nil || ifs.Else != nil || x10Text(ifs.Cond) != "err != nil" {
-		u.fail("%s: makePacket is not followed by `if err != nil {…}` (%s)", fn, pi.pos(body[idx+1]))
+	direct := ok && ifs.Init == nil && ifs.Else == nil &&
+		(x10Text(ifs.Cond) == "err != nil && !"+isUnk || x10Text(ifs.Cond) == "!"+isUnk+" && err != nil")
+	if !ok || ifs.Init != nil || ifs.Else != nil || (x10Text(ifs.Cond) != "err != nil" && !direct) {
+		u.fail("%s: makePacket is not followed by `if err != nil {…}` or `if err != nil && !errors.Is(err, errUnknownExtendedPacket) {…}` (%s)", fn, pi.pos(body[idx+1]))
 		return
 	}
 	inner := x10Stmts(pi, ifs.Body.List)
@@ -676,10 +782,14 @@ func x10ServeLoop(pi *pkgInfo, u *unit, fn, recv, tag string) {
 		}
 		return "falls-through"
 	}
-	const isUnk = "errors.Is(err, errUnknownExtendedPacket)"
 	unkEnd, otherEnd := "?", "?"
 	recognised := false
-	if len(inner) == 1 {
+	if direct {
+		// if err != nil && !errors.Is(err, errUnknownExtendedPacket) { B }: the body is directly inside the for loop
+		recognised = true
+		unkEnd = "falls-through"
+		otherEnd = classify(ifs.Body.List, false)
+	} else if len(inner) == 1 {
 		switch st := inner[0].(type) {
 		case *ast.SwitchStmt:
 			if st.Tag == nil && st.Init == nil {
